@@ -541,6 +541,9 @@ class Interp:
             return self.ev(e.e, env)
         if k == "LambdaE":
             return FnV(FnDecl("<lambda>", e.params, e.ret, e.body, e.tail))
+        if k == "Raw" and getattr(e, "sem", None) is not None:
+            # verbatim source with a stated meaning
+            return self.ev(e.sem, env)
         raise TypeError(k)
 
     def binop(self, op, a, b, operand_ty, result_ty):
